@@ -896,7 +896,7 @@ func phasesFor(c *mc.Ctx) []alphabet {
 	case c.Prop == "C25" && c.Quick():
 		phases = []alphabet{base(6, deep25...), tiny(10)}
 	case c.Prop == "C25":
-		phases = []alphabet{base(8, deep25...), base(4, full("a"), full("b"), full("c")), tiny(16)}
+		phases = []alphabet{base(7, deep25...), base(4, full("a"), full("b"), full("c")), tiny(16)}
 	case c.Quick():
 		phases = []alphabet{base(6, small26...), tiny(10)}
 	default:
